@@ -1,3 +1,14 @@
 import Pms.Props.C11
 
+#print axioms Pms.C11.inCut_self
+#print axioms Pms.C11.C11_assembly
+#print axioms Pms.C11.dist2_symm
+#print axioms Pms.C11.block_swap
+#print axioms Pms.C11.block_symm_ab
+#print axioms Pms.C11.inCut_symm
+#print axioms Pms.C11.C11_symmetric
+#print axioms Pms.C11.specH_row_sum
+#print axioms Pms.C11.C11_translations
+#print axioms Pms.C11.C11_pr_range
+#print axioms Pms.C11.C11_frequencies
 #print axioms Pms.C11.C11_source_shape
